@@ -21,7 +21,7 @@ OUTSIDE = {
     "C10": "limit lowered at run time (excluded by the property's wording)",
     "C11": "-", "C12": "-", "C13": "-", "C14": "-", "C15": "-", "C16": "-",
     "C17": "unforgeability (named assumption); one session per connect token",
-    "C18": "the composed statement over good rounds: monitor (closed theorem being added, see 13.6)",
+    "C18": "other clients competing for the last slot during the handshake (frozen in the two-party theorem); second session on one token",
     "C19": "-",
     "C20": "OS sockets: real in the `t-udp` suite, not proved",
 }
